@@ -584,12 +584,47 @@ func (reg *Registry) probe(p *Program) {
 			// the map: a package-level map, or an element of a package-level map of maps
 			m := mu.Map
 			mt := ""
-			if lk, ok := m.(*ssa.Lookup); ok {
-				if g := globalRoot(lk.X, 0); g != nil {
-					mt = types.TypeString(lk.X.Type(), func(*types.Package) string { return "" }) + "[" + origin(lk.Index, 0) + "]"
+			// inner: m is the element of a package-level map of maps under some index — looked up, or a map made
+			// here and stored there (an alias kept in a local: `byName := reg[tag]; if byName == nil { byName = make(..); reg[tag] = byName }`)
+			var inner func(v ssa.Value, d int) string
+			inner = func(v ssa.Value, d int) string {
+				if d > 4 {
+					return ""
 				}
+				switch x := v.(type) {
+				case *ssa.Lookup:
+					if g := globalRoot(x.X, 0); g != nil {
+						return types.TypeString(x.X.Type(), func(*types.Package) string { return "" }) + "[" + origin(x.Index, 0) + "]"
+					}
+				case *ssa.MakeMap:
+					res := ""
+					allInstrs(sf, func(i2 ssa.Instruction) {
+						if m2, ok := i2.(*ssa.MapUpdate); ok && m2.Value == ssa.Value(x) {
+							if g := globalRoot(m2.Map, 0); g != nil {
+								res = types.TypeString(m2.Map.Type(), func(*types.Package) string { return "" }) + "[" + origin(m2.Key, 0) + "]"
+							}
+						}
+					})
+					return res
+				case *ssa.Phi:
+					res := ""
+					for _, e := range x.Edges {
+						r1 := inner(e, d+1)
+						if r1 == "" || (res != "" && r1 != res) {
+							return ""
+						}
+						res = r1
+					}
+					return res
+				}
+				return ""
+			}
+			if _, isLk := m.(*ssa.Lookup); isLk {
+				mt = inner(m, 0)
 			} else if g := globalRoot(m, 0); g != nil {
 				mt = types.TypeString(m.Type(), func(*types.Package) string { return "" })
+			} else {
+				mt = inner(m, 0)
 			}
 			if mt == "" {
 				return
